@@ -32,7 +32,12 @@ fn parse<'a>(tok: &mut std::slice::Iter<'a, &'a str>, w: &mut Walk) -> Option<No
             let cte = cte_of(tok.next()?)?;
             let kind = *tok.next()?;
             let content = unhex(tok.next()?)?;
-            let mut b = SinglePart::builder().header(ContentType::parse(&ctype).ok()?);
+            // octet contents go through the builder's own `content_type()`, text contents through `header()`
+            let mut b = if kind == "b" || kind == "Q" {
+                SinglePart::builder().content_type(ContentType::parse(&ctype).ok()?)
+            } else {
+                SinglePart::builder().header(ContentType::parse(&ctype).ok()?)
+            };
             if let Some(c) = cte {
                 b = b.header(c);
             }
